@@ -213,6 +213,7 @@ public:
         while( my_size < MaxCapacity && is_divisible(max_depth) ) {
             depth_t prev = my_head;
             my_head = (my_head + 1) % MaxCapacity;
+            if (my_head == 0) __TBB_VERIF_POINT(vp_part_pool_wrap, this, my_size);
             new(my_pool.begin()+my_head) T(my_pool.begin()[prev]); // copy TODO: std::move?
             my_pool.begin()[prev].~T(); // instead of assignment
             new(my_pool.begin()+prev) T(my_pool.begin()[my_head], detail::split()); // do 'inverse' split
